@@ -79,6 +79,7 @@ typedef void (*sk_release_cb)(void* ptr, size_t size, int kind);
 void sk_heap_reset(uint64_t fill_seed);  /* new run: empty arena */
 void sk_heap_reset_stale(void);          /* new run: fresh blocks keep the previous run's bytes */
 void sk_mark_defined(void* p, size_t n); /* MSan builds: treat as initialised; no-op elsewhere */
+uint64_t sk_heap_digest(void);           /* digest of the arena's used part */
 void sk_heap_arm(void);                  /* allocations come from the arena */
 void sk_heap_disarm(void);
 int sk_heap_armed(void);
